@@ -16,8 +16,20 @@ Record rcfg := mkRcfg {
   rc_limit : N;              (* c.readLimit, 0 = none *)
   rc_dlimit : N;             (* c.decompressedReadLimit, 0 = none *)
   rc_rbuf : N;               (* size of c.br (bufio.Reader): Peek(n) fails with ErrBufferFull for n > size *)
-  rc_close1_strict : bool    (* the source rejects a close body of length 1 (false for the current source) *)
+  rc_close1_strict : bool;   (* the source rejects a close body of length 1 (false for the current source) *)
+  rc_avail : bytes -> N      (* compress/flate, streaming (library parameter): output bytes the flate reader has
+                                handed out when it has consumed this prefix of a compressed message and
+                                needs more input; only consulted when rc_dlimit > 0 *)
 }.
+
+(* limitedReader trips while the message is still being read: the flate reader pulls the message frame
+   by frame (frames up to the size of its 4096 byte bufio.Reader) and hands out what it can decode *)
+Definition gtrip (cfg : rcfg) (dc : bool) (data : bytes) : bool :=
+  dc && (0 <? rc_dlimit cfg) && (rc_dlimit cfg <? rc_avail cfg data).
+
+Definition too_big_after_decompression : list event :=
+  [Wrote c_CloseMessage (format_close_message c_CloseMessageTooBig (str "message too big after decompression"));
+   Err EReadLimit].
 
 Definition int63 : N := 9223372036854775808.   (* 2^63: int64 values at or above wrap negative *)
 
@@ -174,13 +186,12 @@ Definition flate_tail : bytes := [0; 0; 255; 255; 1; 0; 0; 255; 255].
 (* a completed message is handed to the application; compressed ones go through the flate reader
    (library parameter: None = the flate reader reports an error) and the decompressed limit *)
 Definition deliver (cfg : rcfg) (inflate : bytes -> option bytes) (typ : N) (decomp : bool) (data : bytes) : list event * bool :=
-  if decomp then
+  if gtrip cfg decomp data then (too_big_after_decompression, false)
+  else if decomp then
     match inflate (data ++ flate_tail) with
     | None => ([Err EInflate], false)
     | Some out =>
-        if (0 <? rc_dlimit cfg) && (rc_dlimit cfg <? N.of_nat (List.length out)) then
-          ([Wrote c_CloseMessage (format_close_message c_CloseMessageTooBig (str "message too big after decompression"));
-            Err EReadLimit], false)
+        if (0 <? rc_dlimit cfg) && (rc_dlimit cfg <? N.of_nat (List.length out)) then (too_big_after_decompression, false)
         else ([Msg typ out], true)
     end
   else ([Msg typ data], true).
@@ -206,12 +217,16 @@ Definition data_step (cfg : rcfg) (inflate : bytes -> option bytes) (cur : optio
   | inl evs => GEnd evs
   | inr (typ, dc, acc) =>
       match take_n len rest with
-      | None => GEnd [Err EEof]                                  (* stream ends inside the payload *)
+      | None =>
+          (* stream ends inside the payload; the flate reader has seen what did arrive *)
+          if gtrip cfg dc (acc ++ (if rc_server cfg then xor_mask key 0 rest else rest)) then GEnd too_big_after_decompression
+          else GEnd [Err EEof]
       | Some (pl, rest') =>
           let data := acc ++ (if rc_server cfg then xor_mask key 0 pl else pl) in
           if g_final st' then
             let '(evs, ok) := deliver cfg inflate typ dc data in
             if ok then GCont evs (mkG true 0) None rest' else GEnd evs
+          else if gtrip cfg dc data then GEnd too_big_after_decompression
           else GCont [] st' (Some (typ, dc, data)) rest'
       end
   end.
